@@ -833,15 +833,77 @@ func c14Linearizable(w *core.W, j int) {
 	}
 }
 
+// c14ReadCompletesAsShutdownBegins: a datagram whose read completes at the moment Shutdown begins has
+// been received: it is dealt with like any other (handler once and its reply, before Shutdown returns).
+func c14ReadCompletesAsShutdownBegins(w *core.W, j int) {
+	s := newC14Srv(w, "udp", uint64(w.Seed)+uint64(j))
+	if s == nil {
+		return
+	}
+	stopped := false
+	defer func() {
+		if !stopped {
+			s.stop()
+		} else {
+			sched.Use(nil)
+		}
+	}()
+	// some ordinary traffic first
+	for k := 0; k < j%3; k++ {
+		q := new(dns.Msg)
+		q.SetQuestion(fmt.Sprintf("before%d.example.", k), dns.TypeA)
+		b, _ := q.Pack()
+		s.deliver(b)
+	}
+	q := new(dns.Msg)
+	q.SetQuestion(fmt.Sprintf("last-%d.example.", j), dns.TypeA)
+	q.Id = uint16(0x4000 + j)
+	pkt, _ := q.Pack()
+	h0 := s.handled.Load()
+	addr := netsim.Addr("late-client")
+	s.pc.SetHoldNextDelivery()
+	s.pc.Inject(pkt, addr)
+	deadline := time.Now().Add(c13Watch)
+	for !s.pc.Holding() && time.Now().Before(deadline) {
+		time.Sleep(time.Millisecond)
+	}
+	if !s.pc.Holding() {
+		w.Inconclusive("c14-held-read-not-reached")
+		return
+	}
+	done := make(chan error, 1)
+	go func() { done <- s.srv.Shutdown() }()
+	stopped = true
+	w.Eval(1)
+	select {
+	case <-done:
+	case <-time.After(c13Watch):
+		w.Violation("C14/shutdown-hangs/read-completes-as-shutdown-begins", "Shutdown did not return", nil)
+		return
+	}
+	select {
+	case <-s.serveErr:
+	case <-time.After(c13Watch):
+	}
+	w.Count("reads_completing_as_shutdown_begins", 1)
+	handled := int(s.handled.Load() - h0)
+	replies := s.pc.TakeSent(addr)
+	wit := map[string]any{"packet": hx(pkt)}
+	if handled != 1 || len(replies) != 1 {
+		w.Violation("C14/packet-not-dealt-with/udp/read-completes-as-shutdown-begins", fmt.Sprintf("a query whose read completed while Shutdown was setting the deadline: handler calls=%d, invalid reports=%d, replies=%d (want the handler once and its reply)", handled, s.invalid.Load(), len(replies)), wit)
+	}
+}
+
 func init() {
 	plan, run := sections(
 		section{"admission", tiered(120, 4000), c14Admission},
+		section{"shutdown-race", tiered(12, 200), c14ReadCompletesAsShutdownBegins},
 		section{"routing", tiered(300, 10000), c14Routing},
 		section{"mux-linearizability", tiered(300, 10000), c14Linearizable},
 	)
 	core.Register(&core.Monitor{
 		ID: "C14", Level: "exploration", Plan: plan, Run: run, Race: true, Terminates: true, MaxParallel: 16,
-		Rule: "admission: real Server over simulated datagram and stream transports, one packet at a time with hook-signalled quiescence: all opcode x QR combinations, counts from {0,1,2,3,65535}^4, model-well-formed queries of every type, mutated/truncated hostile packets; stream frames delivered whole, with the length prefix split, octet by octet; 2..8 messages pipelined on one connection in arbitrary segments; " +
+		Rule: "admission: real Server over simulated datagram and stream transports, one packet at a time with hook-signalled quiescence: all opcode x QR combinations, counts from {0,1,2,3,65535}^4, model-well-formed queries of every type, mutated/truncated hostile packets; stream frames delivered whole, with the length prefix split, octet by octet; 2..8 messages pipelined on one connection in arbitrary segments; a datagram whose read completes while Shutdown sets the deadline; " +
 			"oracle = reference accept policy + exactly-one-of {handler once, reject reply, ignore, invalid callback(+FORMERR)} + reply shape; routing: random pattern sets over related names (escaped dots, case variants, relative spellings, root) x query names/types against a wire-label longest-suffix reference (DS: any registered strict ancestor); " +
 			"concurrent Handle/HandleRemove/ServeDNS histories (4 threads x 8 ops) checked for linearizability with porcupine; race detector on; non-trivial = distinct packet/transport, routing case or history",
 		Assumptions: []string{"for DS queries the statement does not say which of several registered ancestors is meant: any registered strict ancestor is accepted"},
